@@ -6,8 +6,19 @@
     (updateOCSPStaples, updateARI).  Every access in the code is inside [certCache.mu], so each
     operation below is one atomic step; an operation may carry a STALE copy of a certificate
     (a value read from an earlier state).  Executable definitions only. *)
-From CM Require Import Lib.Str.
+From CM Require Import Lib.Str Gen.Consts.
 Open Scope N_scope.
+
+(** comparisons of the code, as emitted by the translator (harness/cmd/consts/c12.go):
+    0 <   1 <=   2 >   3 >=   4 ==   5 != *)
+Definition cmp_nat (code a b : nat) : bool :=
+  match code with
+  | 0 => a <? b | 1 => a <=? b | 2 => b <? a | 3 => b <=? a | 4 => a =? b | _ => negb (a =? b)
+  end%nat.
+Definition cmp_z (code : nat) (a b : Z) : bool :=
+  match code with
+  | 0 => (a <? b)%Z | 1 => (a <=? b)%Z | 2 => (b <? a)%Z | 3 => (b <=? a)%Z | 4 => (a =? b)%Z | _ => negb (a =? b)%Z
+  end%nat.
 
 Definition name := str.
 Definition hash := str.
@@ -84,9 +95,12 @@ Definition cache_get (s : state) (h : hash) : cert :=
 (** removeCertificate: for every name of the (copy of the) certificate delete all mentions of
     its hash from the index list, deleting the entry when the list becomes empty; then delete
     the hash from the cache map *)
+(** [len(keyList) == 0] *)
+Definition index_list_empty (kl : list hash) : bool :=
+  cmp_nat cache_remove_empty_cmp (length kl) cache_remove_empty_lit.
 Definition unindex_name (hc : hash) (ix : amap (list hash)) (n : name) : amap (list hash) :=
   let kl := filter (fun h => negb (str_eqb h hc)) (idx_of ix n) in
-  if is_nil kl then adelete n ix else ainsert n kl ix.
+  if index_list_empty kl then adelete n ix else ainsert n kl ix.
 Definition remove_cert (c : cert) (s : state) : state :=
   St (adelete (c_hash c) (cache s))
      (fold_left (unindex_name (c_hash c)) (c_names c) (index s)).
@@ -109,15 +123,21 @@ Definition evict (victim : option hash) (s : state) : state :=
             end
   end.
 
+(** [Capacity > 0 && cacheSize >= Capacity], operators and literal as in the code *)
 Definition at_capacity (cap : nat) (s : state) : bool :=
-  (0 <? cap)%nat && (cap <=? length (cache s))%nat.
+  cmp_nat cache_cap_positive_cmp cap cache_cap_positive_lit &&
+  cmp_nat cache_full_cmp (length (cache s)) cap.
+(** [len(cert.Tags) > 0] *)
+Definition tags_guard (t : list str) : bool :=
+  cmp_nat cache_tagloop_guard_cmp (length t) cache_tagloop_guard_lit.
 
 (** unsyncedCacheCertificate *)
 Definition add_cert (cap : nat) (c : cert) (victim : option hash) (s : state) : state :=
   match alookup (c_hash c) (cache s) with
   | Some e =>
-      if is_nil (c_tags c) then s
-      else St (ainsert (c_hash c) (set_tags e (merge_tags (c_tags e) (c_tags c))) (cache s)) (index s)
+      if tags_guard (c_tags c)
+      then St (ainsert (c_hash c) (set_tags e (merge_tags (c_tags e) (c_tags c))) (cache s)) (index s)
+      else s
   | None =>
       let s1 := if at_capacity cap s then evict victim s else s in
       St (ainsert (c_hash c) c (cache s1))
@@ -145,9 +165,10 @@ Definition managed_queue (s : state) (subjects : list (name * str)) : list hash 
 Definition remove_managed (subjects : list (name * str)) (s : state) : state :=
   remove_hashes (managed_queue s subjects) s.
 
-(** handshake.go handshakeMaintenance (after the fix): the copy with the refreshed staple is
-    written back only if its hash is still cached *)
-Definition write_back (c : cert) (s : state) : state :=
+(** handshake.go handshakeMaintenance as it was after fix 583673e and before fix "stale handshake
+    copy": the WHOLE copy with the refreshed staple was stored if its hash was still cached, which
+    dropped whatever had been merged into the cached certificate since the copy was taken *)
+Definition write_back_whole_copy (c : cert) (s : state) : state :=
   if amem (c_hash c) (cache s) then St (ainsert (c_hash c) c (cache s)) (index s) else s.
 (** maintain.go updateOCSPStaples / updateARI: re-read under the lock, update one field *)
 Definition set_ocsp_at (hv : hash * Z) (s : state) : state :=
@@ -160,6 +181,9 @@ Definition set_ari_at (h : hash) (v : str) (s : state) : state :=
   | Some c => St (ainsert h (set_ari c v) (cache s)) (index s)
   | None => s
   end.
+(** handshake.go handshakeMaintenance (now): under the lock the cached certificate is re-read
+    and only the staple of the handshake's copy is stored into it *)
+Definition write_back (c : cert) (s : state) : state := set_ocsp_at (c_hash c, c_ocsp c) s.
 
 Inductive op :=
 | OAdd (c : cert) (victim : option hash)
@@ -192,9 +216,68 @@ Fixpoint trace (cap : nat) (s : state) (ops : list op) : list state :=
   | o :: r => let s' := step cap s o in s' :: trace cap s' r
   end.
 
+(** ---- the capacity can be changed at run time: Cache.SetOptions (Caddy calls it on every
+    configuration reload).  [dstate] carries the capacity currently configured. ---- *)
+Record dstate := DSt { d_cap : nat; d_st : state }.
+Definition dinit (cap : nat) : dstate := DSt cap init.
+
+(** SetOptions: [if opts.Capacity < 0 { opts.Capacity = 0 }] *)
+Definition clamp_cap (z : Z) : nat :=
+  if cmp_z cache_clamp_cmp z cache_clamp_lit then cache_clamp_value else Z.to_nat z.
+
+(** evictRandomCertificate, [k] times; the victims the implementation drew are inputs *)
+Fixpoint evict_n (k : nat) (victims : list hash) (s : state) : state :=
+  match k with
+  | O => s
+  | S k' => match victims with
+            | v :: r => evict_n k' r (evict (Some v) s)
+            | [] => evict_n k' [] (evict None s)
+            end
+  end.
+(** iterations of [for e := E; e > lit; e--] (code 2) / [e >= lit] (code 3) *)
+Definition countdown_iters (code lit : nat) (e : Z) : nat :=
+  match code with
+  | 2 => Z.to_nat (e - Z.of_nat lit)
+  | 3 => Z.to_nat (e + 1 - Z.of_nat lit)
+  | _ => 0
+  end%nat.
+(** the trim of SetOptions (fix 4af396d):
+    [if Capacity > 0 { for excess := len(cache) - Capacity; excess > 0; excess-- { evict one } }] *)
+Definition trim_count (n : nat) (s : state) : nat :=
+  if cmp_nat cache_trim_guard_cmp n cache_trim_guard_lit
+  then countdown_iters cache_trim_loop_cmp cache_trim_loop_lit (Z.of_nat (length (cache s)) - Z.of_nat n)
+  else 0%nat.
+Definition set_capacity (z : Z) (victims : list hash) (d : dstate) : dstate :=
+  let n := clamp_cap z in DSt n (evict_n (trim_count n (d_st d)) victims (d_st d)).
+(** SetOptions as it was before the fix: the options were stored and nothing else happened *)
+Definition set_capacity_untrimmed (z : Z) (d : dstate) : dstate := DSt (clamp_cap z) (d_st d).
+
+Inductive dop :=
+| DOp (o : op)
+| DSetCap (z : Z) (victims : list hash)   (* Cache.SetOptions with Capacity = z *)
+| DQuery (q : name)                       (* Cache.AllMatchingCertificates(q): reads only *)
+| DStop                                   (* Cache.Stop: ends the maintenance goroutine; the maps are not touched *)
+| DScan (renew : bool).                   (* the scan of a maintenance pass, which shows every certificate it
+                                             considers to the ConfigGetter: updateOCSPStaples (false),
+                                             RenewManagedCertificates (true); reads only *)
+
+Definition dstep (d : dstate) (o : dop) : dstate :=
+  match o with
+  | DOp o => DSt (d_cap d) (step (d_cap d) (d_st d) o)
+  | DSetCap z vs => set_capacity z vs d
+  | DQuery _ | DStop | DScan _ => d
+  end.
+Definition dstep_untrimmed (d : dstate) (o : dop) : dstate :=
+  match o with
+  | DSetCap z _ => set_capacity_untrimmed z d
+  | _ => dstep d o
+  end.
+Definition drun (d : dstate) (ops : list dop) : dstate := fold_left dstep ops d.
+Definition drun_untrimmed (d : dstate) (ops : list dop) : dstate := fold_left dstep_untrimmed ops d.
+
 (** ---- AllMatchingCertificates (cache.go): exact matches, then every candidate obtained by
     replacing the labels of the name by "*" progressively from the left ---- *)
-Definition c_star : N := 42.
+Definition c_star : N := cache_wildcard_char.   (* labels[i] = "*" *)
 Fixpoint star_prefixes (done todo : list str) : list (list str) :=
   match todo with
   | [] => []
@@ -204,6 +287,17 @@ Definition wildcard_candidates (n : name) : list name :=
   map (join_with c_dot) (star_prefixes [] (split_on c_dot n)).
 Definition all_matching (s : state) (n : name) : list cert :=
   flat_map (get_all_matching_certs s) (n :: wildcard_candidates n).
+
+(** what AllMatchingCertificates answers, as hashes *)
+Definition answer (s : state) (q : name) : list hash := map c_hash (all_matching s q).
+
+(** the certificates a maintenance scan shows to the ConfigGetter (CacheOptions.GetConfigForCert,
+    which typically chooses the Config by [cert.Tags]): updateOCSPStaples every cached certificate
+    (with a leaf, not expired), RenewManagedCertificates the managed ones that have names *)
+Definition scan_sel (renew : bool) (c : cert) : bool :=
+  negb renew || (c_managed c && negb (is_nil (c_names c))).
+Definition scan_view (renew : bool) (s : state) : list cert :=
+  filter (scan_sel renew) (map snd (cache s)).
 
 (** ---- the invariant, as a boolean over a finite universe of names and hashes
     ([names_of] : the names of the certificate with a given hash) ---- *)
